@@ -120,13 +120,16 @@ func loadGo(repo string, conf GoConfig, overlay map[string][]byte) (*GoProg, err
 		if !noInline {
 			p.unfoldNewConsts()
 			p.applyInline()
+			p.parents = nil // the layers change the tree: the parent map is rebuilt on demand
 		}
 		p.applyRoles()
 		if !noInline {
 			p.propagateNewLocals()
+			p.parents = nil
 		}
 		if !noOrient {
 			p.applyOrient()
+			p.parents = nil
 		}
 	}
 	return p, nil
